@@ -148,6 +148,7 @@ func scenarioServer(sp Spec, oc *Outcome) {
 	baseG := goroutineIDs()
 	baseFd := fdSnapshot()
 	rec := NewRec()
+	rec.slow = time.Duration(sp.SlowCbUs) * time.Microsecond
 	wt := time.Duration(sp.WriteTimeout) * time.Millisecond
 	sndbuf := 0
 	for _, p := range sp.Peers {
@@ -240,6 +241,8 @@ func scenarioServer(sp Spec, oc *Outcome) {
 	startNoise(sp.Noise, noiseStop)
 	// a further reader joins while Close runs
 	var wgJoin sync.WaitGroup
+	var jmu sync.Mutex
+	var joiners []*clientPeer
 	if sp.Joiner {
 		wgJoin.Add(1)
 		go func() {
@@ -249,6 +252,9 @@ func scenarioServer(sp Spec, oc *Outcome) {
 			for k := 0; k < 3; k++ {
 				j := &clientPeer{idx: 100 + k, spec: PeerSpec{Kind: "client", Mode: "play", Proto: []string{"udp", "tcp"}[k%2], Park: -1}, sc: &jsp, co: co, addr: fx.addr, path: "stream"}
 				j.init(time.Second, time.Second)
+				jmu.Lock()
+				joiners = append(joiners, j)
+				jmu.Unlock()
 				j.run()
 				select {
 				case <-co.closeDone:
@@ -333,7 +339,33 @@ func scenarioServer(sp Spec, oc *Outcome) {
 	}
 	// afterwards: nothing the server started is left, none of its sockets is open
 	oc.LeftAfter = stacks(waitNoLib(baseG, []string{"server"}, 1500*time.Millisecond))
-	oc.SockAfter = waitNoSockets(fx.ports, 500*time.Millisecond)
+	// sockets of the harness's own peers are not the server's (a peer may get a local port number the
+	// server used: other protocol, or a loopback self-connect after the listener is gone)
+	peerPorts := map[string]bool{}
+	for _, p := range peers {
+		for k := range p.portSet() {
+			peerPorts[k] = true
+		}
+	}
+	jmu.Lock()
+	for _, p := range joiners {
+		for k := range p.portSet() {
+			peerPorts[k] = true
+		}
+	}
+	jmu.Unlock()
+	for _, r := range raws {
+		if r.conn != nil {
+			peerPorts[fmt.Sprintf("tcp:%d", r.conn.LocalAddr().(*net.TCPAddr).Port)] = true
+		}
+	}
+	srvPorts := map[string]bool{}
+	for k := range fx.ports {
+		if !peerPorts[k] {
+			srvPorts[k] = true
+		}
+	}
+	oc.SockAfter = waitNoSockets(srvPorts, 500*time.Millisecond)
 
 	// wind down the harness side, then look at the whole process
 	for _, r := range raws {
